@@ -160,7 +160,10 @@ def evaluate_case(case, wd, check_artifacts=True, stats=None):
             if p["verdict"] == "crash":
                 viol.append(("compiler_crash", "order=%s entropy=%d: %s" % (order, e, p.get("detail"))))
             elif p["verdict"] == "hang":
-                viol.append(("hang", "order=%s entropy=%d" % (order, e)))
+                # one hang decides the case; do not spend a timeout per order
+                if stats is not None:
+                    stats["runs"] = stats.get("runs", 0) + nruns
+                return [("hang", "order=%s entropy=%d: no exit within %ds" % (order, e, TIMEOUT_S))]
             elif p["verdict"] in ("rejected", "malformed"):
                 viol.append(("split_rejected", "order=%s entropy=%d: %s %s" % (order, e, p.get("codes"), (p.get("stderr") or p.get("detail") or "")[:400])))
             if first is None:
